@@ -19,12 +19,14 @@ CONSTANTS Variant, LaneStrict
 Avx512 == Variant \in {"avx512_t1", "avx512_t2"}
 Avx2 == Variant \in {"avx2_t1", "avx2_t2"}
 ShaNi == Variant \in {"sse_t2", "sse_t3", "avx2_t2"}      \* SHA-NI 2-lane managers in use (SHA-1: SSE only)
-SU(n) == [fam |-> "simple", L |-> n, blk |-> 64]
-HU(n, b) == [fam |-> "hmac", L |-> n, blk |-> b]
+SU(n) == [fam |-> "simple", L |-> n, blk |-> 64, pf |-> ""]
+HU(n, b) == [fam |-> "hmac", L |-> n, blk |-> b, pf |-> ""]
+PU(n, rule) == [fam |-> "phased", L |-> n, blk |-> 16, pf |-> rule]
 CbcUnits == {"cbc16", "cbc24", "cbc32"}
 CfbUnits == {"cfb16", "cfb24", "cfb32"}
 DesUnits == {"des_e", "des_d", "des3_e", "des3_d"}
 UnitNames == CbcUnits \cup CfbUnits \cup DesUnits \cup {"hmac1", "hmac224", "hmac256", "hmac384", "hmac512", "hmacmd5"}
+             \cup {"xcbc", "cmac128", "cmac256"}
 UnitsFor ==
     [un \in UnitNames |->
        CASE un \in CbcUnits -> SU(IF Variant = "avx512_t2" THEN 16 ELSE 8)
@@ -34,13 +36,15 @@ UnitsFor ==
                 HU(IF Avx512 THEN 16 ELSE IF Avx2 THEN 8 ELSE IF Variant = "sse_t1" THEN 4 ELSE 2, 64)
          [] un \in {"hmac224", "hmac256"} ->
                 HU(IF Avx512 THEN 16 ELSE IF ShaNi THEN 2 ELSE IF Avx2 THEN 8 ELSE 4, 64)
+         [] un = "xcbc" -> PU(IF Variant = "avx512_t2" THEN 16 ELSE IF Avx512 \/ Avx2 THEN 8 ELSE 4, "xcbc")
+         [] un \in {"cmac128", "cmac256"} -> PU(IF Variant = "avx512_t2" THEN 16 ELSE 8, "cmac")
          [] un \in {"hmac384", "hmac512"} -> HU(IF Avx512 THEN 8 ELSE IF Avx2 THEN 4 ELSE 2, 128)
          [] OTHER -> HU(IF Avx512 \/ Avx2 THEN 16 ELSE 8, 64)]          \* HMAC-MD5
 
 CO == INSTANCE ChainOps WITH U <- UnitsFor, Fuel <- 2000, LogStages <- FALSE
 
 \* suite [mode, klen, dir, hash, order] -> units.  Modes: 1 CBC, 2 CTR, 3 NULL, 7 DES, 10 3DES, 12 ECB, 26 CFB;
-\* hashes 1..5 HMAC-SHA1/224/256/384/512, 7 HMAC-MD5, 8 NULL; direction 1 encrypt; order 2 = hash then cipher
+\* hashes 1..5 HMAC-SHA1/224/256/384/512, 7 HMAC-MD5, 6 XCBC, 12/18 CMAC(-bitlen), 27 CMAC-256, 8 NULL; direction 1 encrypt; order 2 = hash then cipher
 KeyTag(k) == CASE k = 16 -> "16" [] k = 24 -> "24" [] OTHER -> "32"
 CipherUnit(su) ==
     CASE su[1] = 1 /\ su[3] = 1 -> (CASE su[2] = 16 -> "cbc16" [] su[2] = 24 -> "cbc24" [] OTHER -> "cbc32")
@@ -50,7 +54,8 @@ CipherUnit(su) ==
       [] OTHER -> "sync"
 HashUnit(su) ==
     CASE su[4] = 1 -> "hmac1" [] su[4] = 2 -> "hmac224" [] su[4] = 3 -> "hmac256" [] su[4] = 4 -> "hmac384"
-      [] su[4] = 5 -> "hmac512" [] su[4] = 7 -> "hmacmd5" [] OTHER -> "sync"
+      [] su[4] = 5 -> "hmac512" [] su[4] = 7 -> "hmacmd5" [] su[4] = 6 -> "xcbc"
+      [] su[4] \in {12, 18} -> "cmac128" [] su[4] = 27 -> "cmac256" [] OTHER -> "sync"
 InfoOf(t) == [cu |-> CipherUnit(t.su), hu |-> HashUnit(t.su), hc |-> t.su[5] = 2, len |-> t.len, hlen |-> t.hlen]
 
 VARIABLES cm,     \* machine state of ChainOps
